@@ -4,12 +4,12 @@ VERIF = os.path.dirname(os.path.dirname(os.path.abspath(__file__)))
 
 # property -> (technique, level text, level note, design ref)
 CHECKS = {
-    "C12": ("TLA+ refinement CursorImpl=>Cursor (TLC, exhaustive) + replay of every model transition on the code + TLC trace validation of recorded histories against Cursor.tla",
-            "TLC exhausts the implementation-shaped model of input.go/buffer/lexer.go against the property-level cursor for all inputs up to length 3-4 over 7 byte classes; every one of those transitions is executed on the real Input/Lexer through six constructors, and those executions plus thousands of random contract-respecting histories are validated event by event by TLC against Cursor.tla.",
+    "C12": ("TLA+ refinement CursorImpl=>Cursor (TLC, exhaustive) + replay of every model transition on the code + TLC trace validation of recorded histories against Cursor.tla + TLAPS proof that Cursor.tla keeps the cursor inside data of any length",
+            "TLC exhausts the implementation-shaped model of input.go/buffer/lexer.go against the property-level cursor for all inputs up to length 3-4 over 7 byte classes; every one of those transitions is executed on the real Input/Lexer through six constructors, and those executions plus thousands of random contract-respecting histories are validated event by event by TLC against Cursor.tla. CursorProof.tla (tlapm, 99 obligations) shows for data of any length that no action of Cursor.tla lets the cursor leave the data.",
             "Bounded: input length <= 4 in the exhaustive part, 7 representative byte values; random histories are sampled. Trusted: TLC, the harness's slice-address arithmetic.",
             "DESIGN.md §4 C12"),
-    "C13": ("TLA+ refinement StreamImpl=>Stream (TLC, exhaustive over reader schedules x call sequences) + replay of every model behaviour on the code with a scripted reader + TLC trace validation of recorded histories (every Reader.Read logged) against Stream.tla",
-            "TLC exhausts the implementation-shaped model of streamlexer.go (arrays, bufferPool free/reuse/in-place/allocate, growth rule, one step per underlying Read) against the property-level spec for all reader schedules and call sequences on streams of 4-5 bytes; each emitted behaviour is executed on the real StreamLexer with a scripted reader and compared with the model; thousands of random histories with random chunkers, sizes, free disciplines and long streams (memory clause, hook VerifHeld) are validated event by event by TLC against Stream.tla, which watches every handed-out slice for stability.",
+    "C13": ("TLA+ refinement StreamImpl=>Stream (TLC, exhaustive over reader schedules x call sequences) + replay of every model behaviour on the code with a scripted reader + TLC trace validation of recorded histories (every Reader.Read logged) against Stream.tla + TLAPS proof of Stream.tla's ordering invariant for streams of any length",
+            "TLC exhausts the implementation-shaped model of streamlexer.go (arrays, bufferPool free/reuse/in-place/allocate, growth rule, one step per underlying Read) against the property-level spec for all reader schedules and call sequences on streams of 4-5 bytes; each emitted behaviour is executed on the real StreamLexer with a scripted reader and compared with the model; thousands of random histories with random chunkers, sizes, free disciplines and long streams (memory clause, hook VerifHeld) are validated event by event by TLC against Stream.tla, which watches every handed-out slice for stability. StreamProof.tla (tlapm) shows freed <= start <= pos <= N, reported <= start and read <= N for streams, schedules and Free disciplines of any size.",
             "Bounded: stream length <= 5, depth 6 calls in the exhaustive part; memory bound is the generous 16*(size+token+backlog)+64. Trusted: TLC, the scripted reader, the harness's absolute-offset arithmetic. One recorded finding (Lexeme slices across refills) is listed in known_findings.jsonl.",
             "DESIGN.md §4 C13"),
     "C01": ("TLA+ protocol spec NextProtocol.tla (no action for panic/hang/fatal) judging TLC-generated inputs (all class strings, nesting families) and harvested test literals run through every entry point; TLC trace validation",
